@@ -18,6 +18,9 @@ PARAMS = {
 }
 
 
+YFEATURES = {'str', 'int', 'bool', 'hook', 'loop', 'case', 'opt', 'try', 'if', 'wait', 'finish', 'yield', 'regex', 'appendc', 'delete', 'idiom'}
+
+
 def row_args(row):
     a = []
     a += {'struct': [], 'dynamic': ['-fallocate-str-space-dynamic'], 'ondemand': ['-fallocate-str-space-dynamic-on-demand'],
@@ -80,6 +83,18 @@ def run(tier, seed):
     for name, src, args in base:
         for k, row in enumerate(rows):
             items.append(('%s#row%d' % (name, k), src, list(args) + row_args(row)))
+    # yield programs at -O3 (yields merged onto consuming transitions): pointer mode is fixed by yield support, the other
+    # representation options still vary; fed whole and one byte per call, so every yield is re-entered at a chunk end
+    yrows = [r for r in covering.covering_array({k: v for k, v in PARAMS.items() if k != 'indirect'}, t=2, rng=random.Random(seed + 1))]
+    yrows = yrows[:6] if quick else yrows
+    for i in range(5 if quick else 40):
+        sd = rng.randrange(1 << 30)
+        if i % 2:
+            src = genprog.gen_case_program(sd, yield_mode=True)[1]
+        else:
+            src = genprog.generate(sd, YFEATURES, maxdepth=2, maxstmts=3)[1]
+        for k, row in enumerate(yrows):
+            items.append(('yield:%d#row%d' % (sd, k), src, ['-O3', '-fyield-support'] + row_args(dict(row, indirect=0))))
     out = ctrace.run_pipeline(chk, items, rng, seed, nwalks=5 if quick else 10, maxlen=20, chunk_mode='some', chunk_limit=2, keep_records=True, cover=6 if quick else 16)
     try:
         groups = collections.defaultdict(list)
